@@ -119,9 +119,11 @@ theorem evalNode_frame (env : Env) (ef : Node → St → Res × St) (hef : Calle
   unfold evalNode
   split
   · split
-    · exact BodyRel.of_frameSame (frameSame_hitEdge s n)
+    · split
+      · exact BodyRel.of_frameSame (frameSame_hitEdge s n)
+      · exact (hef n s hr).trans (BodyRel.of_frameSame (frameSame_keepExc s _))
     · exact (hef n s hr).trans (BodyRel.of_frameSame (frameSame_keepExc s _))
-  · exact (hef n s hr).trans (BodyRel.of_frameSame (frameSame_keepExc s _))
+  · exact BodyRel.of_frameSame ⟨rfl, rfl, rfl⟩
 
 /-! ### draining the reads of the finished frame -/
 
